@@ -300,7 +300,7 @@ func (e *ExecutionConfig) setProposerConfigOptions(_ context.Context,
 	}
 	// Add new relays.
 	for address, proposerRelayConfig := range proposerConfig.Relays {
-		if _, alreadyUpdated := updated[address]; !alreadyUpdated {
+		if _, alreadyUpdated := updated[address]; !alreadyUpdated && !proposerRelayConfig.Disabled {
 			relays = append(relays, e.generateRelayConfig(address, proposerConfig, proposerRelayConfig, fallbackFeeRecipient, fallbackGasLimit))
 		}
 	}
